@@ -1,0 +1,40 @@
+//go:build verif
+
+// Contracts for package pubsubcoreapi, read by /verif/govc. Comments only.
+package pubsubcoreapi
+
+//@ spec func inList(s Slice<Str>, x Str) Bool = exists i Int :: 0 <= i && i < len(s) && s[i] == x
+//@ spec func noDup(s Slice<Str>) Bool = forall i Int, j Int :: 0 <= i && i < j && j < len(s) ==> s[i] != s[j]
+
+// a membership snapshot returned by the underlying pubsub is a set (the property's quantifier)
+//@ extern (github.com/ipfs/kubo/core/coreiface.PubSubAPI).Peers as (a).Peers(ctx, opts) (peers, err)
+//@   ensures err == nil ==> noDup(peers)
+//@   modifies nothing
+
+// peersDiff: against a duplicate-free membership snapshot `all`, joining = all \ previous members and
+// leaving = previous members \ all, each peer reported exactly once, and the snapshot becomes the members.
+//@ func (*psTopic).peersDiff
+//@   props C20
+//@   requires p.ps != nil
+//@   ghost M0 := p.members
+//@   loop 1 invariant forall x Str :: (x in oldMembers) <==> (exists i Int :: 0 <= i && i < $i && M0[i] == x)
+//@   loop 1 invariant joining == nil && leaving == nil && len(joining) == 0 && len(leaving) == 0
+//@   loop 2 ghost A := all
+//@   loop 2 invariant noDup(A) && all == A && len(leaving) == 0
+//@   loop 2 invariant forall x Str :: (x in oldMembers) <==> (inList(M0, x) && !(exists i Int :: 0 <= i && i < $i && A[i] == x))
+//@   loop 2 invariant forall x Str :: inList(joining, x) <==> ((exists i Int :: 0 <= i && i < $i && A[i] == x) && !inList(M0, x))
+//@   loop 2 invariant noDup(joining)
+//@   loop 3 invariant forall x Str :: inList(leaving, x) <==> $seen[x]
+//@   loop 3 invariant noDup(leaving)
+//@   ensures err == nil ==> (forall x Str :: inList(joining, x) <==> (inList(p.members, x) && !inList(M0, x)))
+//@   ensures err == nil ==> (forall x Str :: inList(leaving, x) <==> (inList(M0, x) && !inList(p.members, x)))
+//@   ensures err == nil ==> noDup(joining) && noDup(leaving)
+
+// WatchMessages (the forwarding goroutine): a message whose sender is the local peer is never forwarded;
+// every forwarded event carries exactly the bytes of the message just received.
+//@ func (*psTopic).WatchMessages$1
+//@   props C20
+//@   flag nilcalls
+//@   requires p != nil && p.ps != nil && p.ps.logger != nil && sub != nil
+//@   assert @ before call pubsub.NewEventMessage#1: msgFrom(msg) != p.ps.id
+//@   assert @ after send ch: ptr(sent(ch)[len(sent(ch)) - 1], "berty.tech/go-orbit-db/iface.EventPubSubMessage").Content == msgData(msg)
